@@ -7,4 +7,5 @@ func ruleC08(prog *Program, rep *Report) {
 	rulePoolPut(prog, rep)
 	ruleReturnAlias(prog, rep, "C08")
 	ruleGlobals(prog, rep)
+	rulePreRegister(prog, rep)
 }
